@@ -1,3 +1,3 @@
 #!/bin/bash
 # confirm every seeded mutation dir given as args "ID-k", 3 at a time
-printf "%s\n" "$@" | xargs -P 2 -I{} bash -c 'd=/verif/seeded/{}; id=$(echo {} | cut -d- -f1); k=$(echo {} | cut -d- -f2); /verif/tools/seed_confirm.sh $id $k $d > /tmp/seedruns/{}.log 2>&1'
+printf "%s\n" "$@" | xargs -P 3 -I{} bash -c 'd=/verif/seeded/{}; id=$(echo {} | cut -d- -f1); k=$(echo {} | cut -d- -f2); /verif/tools/seed_confirm.sh $id $k $d > /tmp/seedruns/{}.log 2>&1'
